@@ -428,14 +428,17 @@ func (fx *Fx) runLoop(st *State, lp *loopParts) {
 	if lp.spec != nil && lp.spec.Cancels != "" && !c.dry {
 		// every select the loop blocks in (at the top level of its body) offers the cancellation alternative
 		nsel := 0
-		for _, stmt := range lp.body.List {
-			sel, ok := stmt.(*ast.SelectStmt)
-			if ls, isL := stmt.(*ast.LabeledStmt); isL {
-				sel, ok = ls.Stmt.(*ast.SelectStmt)
+		var sels []*ast.SelectStmt
+		ast.Inspect(lp.body, func(n ast.Node) bool {
+			switch x := n.(type) {
+			case *ast.FuncLit:
+				return false // another goroutine's or a callback's code: under its own contract
+			case *ast.SelectStmt:
+				sels = append(sels, x)
 			}
-			if !ok {
-				continue
-			}
+			return true
+		})
+		for _, sel := range sels {
 			nsel++
 			has := "false"
 			for _, cl := range sel.Body.List {
@@ -447,11 +450,13 @@ func (fx *Fx) runLoop(st *State, lp *loopParts) {
 				case *ast.AssignStmt:
 					rx = cm.Rhs[0]
 				}
-				if u, ok := unparen(rx).(*ast.UnaryExpr); ok && rx != nil {
-					if call, ok := unparen(u.X).(*ast.CallExpr); ok {
-						if se, ok := unparen(call.Fun).(*ast.SelectorExpr); ok && se.Sel.Name == "Done" {
-							if id, ok := unparen(se.X).(*ast.Ident); ok && id.Name == lp.spec.Cancels {
-								has = "true"
+				if rx != nil {
+					if u, ok := unparen(rx).(*ast.UnaryExpr); ok {
+						if call, ok := unparen(u.X).(*ast.CallExpr); ok {
+							if se, ok := unparen(call.Fun).(*ast.SelectorExpr); ok && se.Sel.Name == "Done" {
+								if id, ok := unparen(se.X).(*ast.Ident); ok && id.Name == lp.spec.Cancels {
+									has = "true"
+								}
 							}
 						}
 					}
@@ -460,7 +465,7 @@ func (fx *Fx) runLoop(st *State, lp *loopParts) {
 					has = "true" // a default branch: the select does not block
 				}
 			}
-			c.oblige(loopHead, "cancel", fmt.Sprintf("%s.select%d-offers-cancellation", tag, nsel), has, "the select the loop blocks in has a case <-"+lp.spec.Cancels+".Done()", fx.w.pos(sel.Pos()))
+			c.oblige(loopHead, "cancel", fmt.Sprintf("%s.select%d-offers-cancellation", tag, nsel), has, "every select the loop can block in (nested ones included) has a case <-"+lp.spec.Cancels+".Done()", fx.w.pos(sel.Pos()))
 		}
 		if nsel == 0 {
 			c.oblige(loopHead, "cancel", tag+".blocks-in-a-select", "false", "a cancellable message loop blocks in a select at the top level of its body", fx.w.pos(lp.node.Pos()))
